@@ -520,7 +520,124 @@ func genLarge(r *core.Rand) core.Case {
 	return genLargeGraph(r)
 }
 
+/* ---------- magnitude: huge limits, few heavy items (value-only lines) ---------- */
+
+// genHugeLimit: ≤ 10 items with weights around 2^19 / 2^20 (and a few small ones); the limit
+// is the total weight of a chosen subset (hit exactly by construction), or one more / less.
+// Limits stay below 2^21 + 2^17: the code under test allocates a table of limit+1 cells.
+func genHugeLimit(r *core.Rand) core.Case {
+	n := r.Range(2, 8)
+	heavy := []int{1 << 19, 1<<19 + 1, 1<<20 - 1, 1 << 20, 1<<20 + 1, 3 << 18, 1 << 18, 1<<20 - 7}
+	ws := make([]int, n)
+	var sb strings.Builder
+	sb.WriteString("@ C18 dp")
+	for i := range ws {
+		switch r.Pick(50, 30, 20) {
+		case 0:
+			ws[i] = heavy[r.Intn(len(heavy))]
+		case 1:
+			ws[i] = r.Range(1, 1<<20)
+		default:
+			ws[i] = r.Range(0, 9)
+		}
+		fmt.Fprintf(&sb, " %d %d", ws[i], r.Range(1, 9))
+	}
+	lines := []string{sb.String()}
+	for i, ops := 0, r.Range(1, 2); i < ops; i++ {
+		tot := 0
+		for k := 0; k < 64 && (tot <= 1<<20 || r.Chance(50)); k++ {
+			if j := r.Intn(n); tot+ws[j] < 1<<21+1<<17 {
+				tot += ws[j] // with repetition: the limit need not be a subset sum every time
+			}
+		}
+		if r.Chance(70) {
+			// an exact subset sum
+			tot = 0
+			for j := range ws {
+				if r.Bool() && tot+ws[j] < 1<<21+1<<17 {
+					tot += ws[j]
+				}
+			}
+		}
+		W := tot + []int{0, 0, 0, 1, -1}[r.Intn(5)]
+		if W < 0 {
+			W = 0
+		}
+		lines = append(lines, fmt.Sprintf("knapv %d %s", W, genBrk(r)))
+	}
+	return core.Case{Lines: lines, Tag: "magnitude"}
+}
+
+/* ---------- history: ONE Graph value through build / query / Init / rebuild rounds ---------- */
+
+func genGraphHistory(r *core.Rand) core.Case {
+	lines := []string{"@ C18 graphh"}
+	rounds := r.Range(2, 3)
+	prevN := 0
+	for round := 0; round < rounds; round++ {
+		// labels of each round from a disjoint range (or, sometimes, the same labels again)
+		base := round * 100
+		if round > 0 && r.Chance(20) {
+			base = (round - 1) * 100
+		}
+		n := r.Range(1, 7)
+		if round > 0 && r.Chance(60) {
+			n = prevN // same number of nodes, different labels
+		}
+		prevN = n
+		if round > 0 || r.Chance(40) {
+			lines = append(lines, fmt.Sprintf("init %d", r.Range(0, 8)))
+		}
+		label := func(i int) int { return base + i*3 + 1 }
+		isolatedFirst := r.Bool()
+		if isolatedFirst {
+			for i := 0; i < n; i++ {
+				lines = append(lines, fmt.Sprintf("node %d", label(i)))
+			}
+		}
+		pct := []int{20, 50, 80}[r.Intn(3)]
+		for i := 0; i < n; i++ {
+			for j := i + 1; j < n; j++ {
+				if !r.Chance(pct) {
+					continue
+				}
+				a, b := label(i), label(j)
+				if r.Bool() {
+					a, b = b, a
+				}
+				switch r.Intn(4) {
+				case 0:
+					lines = append(lines, fmt.Sprintf("arc %d %d", a, b), fmt.Sprintf("arc %d %d", b, a))
+				case 1:
+					lines = append(lines, fmt.Sprintf("arc %d %d", a, b), fmt.Sprintf("und %d %d", a, b))
+				default:
+					lines = append(lines, fmt.Sprintf("und %d %d", a, b))
+				}
+			}
+			if r.Chance(15) {
+				lines = append(lines, []string{"cliques", "paths", "len"}[r.Intn(3)]) // a query in the middle of building
+			}
+		}
+		if !isolatedFirst {
+			for i := 0; i < n; i++ {
+				lines = append(lines, fmt.Sprintf("node %d", label(i)))
+			}
+		}
+		for k := r.Range(1, 3); k > 0; k-- {
+			lines = append(lines, []string{"cliques", "cliques", "paths", "len"}[r.Intn(4)])
+		}
+		lines = append(lines, "cliques")
+	}
+	return core.Case{Lines: lines, Tag: "history"}
+}
+
 func gen(r *core.Rand, tier string) core.Case {
+	if r.Chance(4) {
+		return genGraphHistory(r)
+	}
+	if (tier == "thorough" && r.Chance(2)) || (tier != "thorough" && r.Chance(10) && r.Chance(1)) {
+		return genHugeLimit(r)
+	}
 	// light share in quick (≈ 450 of 30000 cases), heavier in thorough / on anchor drift
 	if (tier == "thorough" && r.Chance(6)) || (tier != "thorough" && r.Chance(15) && r.Chance(10)) {
 		return genLarge(r)
@@ -623,6 +740,12 @@ func corpus() []core.Case {
 			"solv 9223372036854775806 1 nil 1", "solv 9223372036854775805 1 nil 2", "solv 1 1 nil 3"}},
 		{Tag: "magnitude", Lines: []string{"@ C18 dp 2 3074457345618258602 2 3074457345618258602 2 3074457345618258602 1 1",
 			"knap 4 nil", "knap 6 lex", "knap 7 ge", "solv 6148914691236517204 1 nil 1", "solv 6148914691236517205 1 t 2", "solv 9223372036854775806 0 nil 3"}},
+		// magnitude: limits just above 2^20 hit exactly by a subset (value-only lines)
+		{Tag: "magnitude", Lines: []string{"@ C18 dp 1048576 7 524288 6 1 5 524288 4", "knapv 1048577 nil", "knapv 1048576 nil", "knapv 1572864 t", "knapv 1572865 gt", "knapv 1048575 nil", "knapv 2097153 nil"}},
+		{Tag: "magnitude", Lines: []string{"@ C18 dp 1048577 3 1048576 2 1 2", "knapv 1048577 nil", "knapv 1048578 lex", "knapv 2097154 nil", "knapv 2097153 f"}},
+		// history on one Graph value: query, Init, rebuild with the same number of nodes and other labels
+		{Tag: "history", Lines: []string{"@ C18 graphh", "und 1 2", "und 2 3", "cliques", "paths", "init 4", "len", "cliques", "und 101 102", "node 103", "cliques", "len", "init 0", "node 7", "node 8", "node 9", "cliques", "und 7 9", "cliques"}},
+		{Tag: "history", Lines: []string{"@ C18 graphh", "node 1", "node 2", "paths", "init 2", "node 11", "node 12", "und 11 12", "cliques", "paths", "init 2", "arc 21 22", "und 21 22", "cliques"}},
 		// large: 18 / 33 unit-weight items with limits around the item count (a cell that is not
 		// the last one holds ≥ 17 items), 20 two-valued items for the solvers, a path and a cycle
 		// on 33 / 40 vertices, 12 triangles + 4 isolated vertices on 40 vertices
